@@ -53,6 +53,12 @@ theorem tsp_reset_position_outside_declared (n : Nat) (coords : List (List Rat))
 example : validDraw 3 [[0, 0], [1, 0], [1/2, 1]] := by decide +kernel
 example : ObsInv 3 ⟨[[0, 0], [1, 0], [1, 1]], 1, [false, true, false], [1, -1, -1], 1⟩ := by decide +kernel
 
+/-! NOTE on what the membership theorems of this section do and do not cover (audits r4 #6, r5 #6, r6 #8): the dtype tag of every leaf
+is written by `toNValue` (by construction) — a wrong dtype in the real code cannot falsify `….valid (toNValue …) = true`; dtypes and
+field order of the real observations are compared by the `tsp.state` op (`nvalue`: field order, shape, dtype, data; harness/spec_wave3.py,
+wave3_routing.py) and `jax.eval_shape` in the sweeps.  Shapes are READ OFF the value by `toNValue` (widths off the first row): see
+`…_obs_valid_only`. -/
+
 /-! #### full spec membership (structure, shapes, dtypes, bounds) — Env/TSP/Spec.lean
 
 `obsSpec n` / `actionSpec n` are the declared `observation_spec` / `action_spec` of a `num_cities = n` environment as
@@ -61,11 +67,18 @@ emits, every shape read off the value; `Nested.valid` is the transliteration of 
 
 open Sp PzS in
 /-- the symbolic specs ARE the specs generated from the real spec objects (Gen/Specs.lean) for the catalogue
-configuration `tsp-6` -/
+configuration `tsp-6` and the spec-only configuration with 4 cities (two sizes), reward and discount specs included -/
 theorem tsp_obsSpec_generated :
     prefixed "observation_spec." (obsSpec 6) = declared "tsp-6" "observation_spec." ∧
-    [("action_spec", actionSpec 6)] = declared "tsp-6" "action_spec" := by
-  refine ⟨by decide, by decide⟩
+    [("action_spec", actionSpec 6)] = declared "tsp-6" "action_spec" ∧
+    [("reward_spec", rewardSpec)] = declared "tsp-6" "reward_spec" ∧
+    [("discount_spec", discountSpec)] = declared "tsp-6" "discount_spec" ∧
+    prefixed "observation_spec." (obsSpec 4) = declared "spec-only-tsp-4" "observation_spec." ∧
+    [("action_spec", actionSpec 4)] = declared "spec-only-tsp-4" "action_spec" ∧
+    [("reward_spec", rewardSpec)] = declared "spec-only-tsp-4" "reward_spec" ∧
+    [("discount_spec", discountSpec)] = declared "spec-only-tsp-4" "discount_spec" := by
+  refine ⟨by decide +kernel, by decide +kernel, by decide +kernel, by decide +kernel,
+    by decide +kernel, by decide +kernel, by decide +kernel, by decide +kernel⟩
 
 /-- the observation of every `step` with an action of the action spec (`a < n`, legal or not, terminal step included;
 any distance matrix, penalty, reward function) from a state satisfying `SpecInv n` is accepted by
@@ -100,7 +113,10 @@ position leaf is `BoundedArray((), int32, −1, n−1)` (all other leaves as dec
 theorem tsp_reset_obs_valid_wide (n : Nat) (hn : 0 < n) (coords : List (List Rat)) (h : validDraw n coords) :
     (obsSpecWide n).valid (toNValue (reset n coords).2.obs) = true := TSP.reset_obs_valid_wide n hn coords h
 
-/-- what membership means (so the theorems above are not hollow) -/
+/-- what membership means (so the theorems above are not hollow)  CAVEAT (audits r4 #7, r5 #5, r6 #5): for every field that is a nested list, `toNValue` reads the widths off the FIRST row of the
+nested list, so the shape conjuncts here mean "row count, length of the first row, total number of cells" — a ragged value with the right total can be a
+member, and nothing is concluded about the later rows.  Rectangularity is part of the invariant (`SpecInv` / `Shaped` / `Rect…`) under which the
+forward theorems (`…_reset_obs_valid`, `…_step_obs_valid`, `…_along`) are proved, i.e. it holds of every EMITTED observation. -/
 theorem tsp_obs_valid_only (n : Nat) (o : Obs) (h : (obsSpec n).valid (toNValue o) = true) :
     o.coords.length = n ∧ (∀ x ∈ o.coords.flatten, 0 ≤ x ∧ x ≤ 1) ∧ (0 ≤ o.position ∧ o.position < n) ∧
     o.trajectory.length = n ∧ (∀ c ∈ o.trajectory, -1 ≤ c ∧ c < n) ∧ o.mask.length = n := TSP.obs_valid_only n o h
